@@ -27,10 +27,10 @@ CHECKS = {
             "Exploration: results and errors of deserialize/serialize must be identical across no_copy, override_dataclass_constructors, function vs precomputed method, check_type on well-typed values, deserialization pass_through and all 2^5 PassThroughOptions flag sets (after completion with serialization_default); no_copy=False results share no mutable container with the input; inputs are never modified.",
             "Trusted: identity walker and JSON completion of pass-through results; abstains on Any positions (no-sharing clause) and on unions whose alternatives overlap by runtime class (serialization side).", "DESIGN §5 C08"),
     "C06": ("differential monitor: verdict of deserialize vs an independent JSON Schema validator (jsonschema, draft 2020-12) on the generated deserialization_schema, restricted to the common semantic domain; explanatory defect models for region-wide known findings",
-            "Exploration: for generated (type, options, datum) the real deserialize must accept iff jsonschema validates the datum against the schema generated with the same options (additional_properties, aliaser, all_refs, per-call schema, std conversions); disagreements inside a known-bad region are attributed to the finding only when the explanatory model reproduces the observed outcome exactly.",
-            "Trusted: jsonschema 4.26 validators and meta-schemas; generators keep patterns in the Python/ECMA common subset; data with integer-valued floats / duplicates at set positions / ill-formatted strings at format positions are outside the domain.", "DESIGN §5 C06"),
+            "Exploration: for generated (type, options, datum) the real deserialize must accept iff jsonschema validates the datum against the schema generated with the same options (additional_properties, aliaser, all_refs, per-call schema, std conversions), incl. generated discriminated-union families (inherited / Annotated, TypedDict and Literal-tag alternatives, mappings) with data aimed at every alternative and tag mutants; disagreements inside a known-bad region are attributed to the finding only when the explanatory model reproduces the observed outcome exactly.",
+            "Trusted: jsonschema 4.26 validators and meta-schemas; the OpenAPI re-reading of discriminated schemas used only to attribute F33; generators keep patterns in the Python/ECMA common subset; data with integer-valued floats / duplicates at set positions / ill-formatted strings at format positions are outside the domain.", "DESIGN §5 C06"),
     "C17": ("output monitor on *_schema / definitions_schema: dialect meta-schema validation (jsonschema), $ref closure / prefix walker, in-place reference-cycle detector, expected extraction set from use counts of the program spec, definitions_schema vs inline $defs, name-collision probes",
-            "Exploration: every schema generated for the generated programs x entry points x 5 versions x all_refs x ref_factory must validate against the meta-schema of the dialect it declares, have every $ref resolve (inline or in definitions_schema called with the same arguments), contain no reference cycle through in-place applicators, extract exactly the expected named types, and two classes sharing a type name must be refused.",
+            "Exploration: every schema generated for the generated programs x entry points x 5 versions x all_refs x ref_factory must validate against the meta-schema of the dialect it declares, have every $ref resolve (inline or in definitions_schema called with the same arguments), contain no reference cycle through in-place applicators, extract exactly the expected named types, and two classes sharing a type name must be refused; for generated discriminated-union families also the discriminator mapping targets must be defined and the alternatives / discriminated parent extracted.",
             "Trusted: jsonschema's bundled meta-schemas; the walker's notion of sub-schema positions; the expected extraction set computed from the TypeSpec (walk stopping at already seen named types).", "DESIGN §5 C17"),
     "C18": ("differential monitor across dialects: the target dialect's own validator (jsonschema draft-07 / 2019-09; OpenAPI 3.0 through its documented mapping) vs the 2020-12 validator on the same data + foreign-keyword / reference-prefix walker over every sub-schema position",
             "Exploration: for generated programs and data, the schema produced with version=V must accept exactly what the 2020-12 schema accepts under V's rules, and contain only V's vocabulary and reference prefix at every nesting level (also inside definitions_schema for OpenAPI).",
@@ -39,7 +39,7 @@ CHECKS = {
             "Exploration: for generated programs (incl. serialized methods, skip(serialization_if/default), none_as_undefined, with_fields_set) and well-typed values, the real output must be JSON-only and equal to the model's image under every sampled exclude_* / aliaser / additional_properties combination; check_type=True, fall_back_on_any=True and serialize(v) without type must not change it.",
             "Trusted: reference serialization model (vf/sermodel.py); abstains on class-ambiguous unions and on exclude_none for fields typed exactly None.", "DESIGN §5 C04"),
     "C05": ("round-trip monitor: serialize then deserialize (directly and through json) compared by canonical typed image; dual direction checked as fixpoint + subsumption of the input",
-            "Exploration: on the bijective fragment (+ std converted types, discriminated unions) every value drawn from the image of deserialize must come back identical with the same runtime classes, also through json.dumps/loads and under aliasers; serialize(deserialize(d)) must contain d, re-deserialize to an equal value and be a fixpoint.",
+            "Exploration: on the bijective fragment (+ std converted types, generated discriminated-union families: the class selected by the tag and the round trip) every value drawn from the image of deserialize must come back identical with the same runtime classes, also through json.dumps/loads and under aliasers; serialize(deserialize(d)) must contain d, re-deserialize to an equal value and be a fixpoint.",
             "Trusted: canonical image function; the generator's decision of the bijective fragment (documented exclusions are counted in the evidence).", "DESIGN §5 C05"),
     "C07": ("output monitor: serialize(T, v) validated by jsonschema against serialization_schema(T) generated under the same global settings + explicit key-level sub-claims (declared keys, required keys, methods / init=False fields present)",
             "Exploration: for generated programs and well-typed values, under the four combinations of global exclude_defaults / exclude_none, aliasers and additional_properties, the serialized data must validate against the serialization schema; every emitted key must be declared or allowed, every required key emitted, serialized methods and init=False fields present in properties.",
